@@ -60,9 +60,13 @@ pub mod serde_json {
     pub struct Value { x: u8 }
     pub struct JsonMap { x: u8 }
     pub uninterp spec fn spec_to_string(s: Seq<char>) -> Seq<char>;
+    /// what serde_json::to_string produces for a value (the digest must be fed the serialisation of the STORED text itself)
+    pub trait JsonSpec { spec fn json(&self) -> Seq<char>; }
+    impl JsonSpec for String { open spec fn json(&self) -> Seq<char> { spec_to_string(self@) } }
+    impl JsonSpec for Value { uninterp spec fn json(&self) -> Seq<char>; }
     #[verifier::external_body]
-    pub fn to_string(v: &String) -> (r: Result<String, Error>)
-        ensures r is Ok ==> r->Ok_0@ == spec_to_string(v@)
+    pub fn to_string<T: JsonSpec>(v: &T) -> (r: Result<String, Error>)
+        ensures r is Ok ==> r->Ok_0@ == v.json()
     { unimplemented!() }
     #[verifier::external_body]
     pub fn from_str(v: &String) -> (r: Result<Value, Error>) { unimplemented!() }
